@@ -526,6 +526,35 @@ pub fn make(profile: &str, seed: u64, index: u64) -> (Params, Extras) {
                     s.fwd.read = ReadMode::Plain;
                 }
             }
+            if index % 4 == 0 {
+                // an outage of a few seconds in the middle of the transfer: everything the
+                // sender emits in between (data, then probe after probe) is lost and is declared
+                // lost in one pass once the path is back - persistent congestion
+                let mut r = Rng::new(seed ^ 0x9c10);
+                let t0 = r.range(300_000, 2_000_000);
+                let d = r.range(2_000_000, 9_000_000);
+                let mut phases = vec![Phase::clean(t0)];
+                let mut out = Phase::clean(t0 + d);
+                out.blackhole = [true, true];
+                phases.push(out);
+                if r.chance(1, 2) {
+                    // a short window in which something gets through, then a second, shorter outage
+                    phases.push(Phase::clean(t0 + d + r.range(5_000, 200_000)));
+                    let mut out2 = Phase::clean(t0 + d + r.range(400_000, 2_000_000));
+                    out2.blackhole = [true, true];
+                    phases.push(out2);
+                }
+                p.net.phases = phases;
+                p.server.bbr = false;
+                for c in p.clients.iter_mut() {
+                    c.cfg.bbr = false;
+                    c.cfg.idle_timeout_ms = 60_000;
+                    if let Some(s) = c.streams.first_mut() {
+                        s.fwd.len = s.fwd.len.max(600_000);
+                    }
+                }
+                p.server.idle_timeout_ms = 60_000;
+            }
             // ECN: routers on the path mark a share of the ECN-capable datagrams
             {
                 let mut r = Rng::new(seed ^ 0xec4);
